@@ -92,3 +92,4 @@ void hp_hwloc_weight_long(void)
   __CPROVER_assert(r == n, "weight_long: number of set bits");
   VERIF_CANARY();
 }
+void hq_hwloc_bitmap_list_sscanf(void) { VERIF_GHOSTS(); struct hwloc_bitmap_s *s; const char *str; hwloc_bitmap_list_sscanf(s, str); VERIF_CANARY(); }
